@@ -3,7 +3,7 @@ namespace CaddyModel.Gen
 
 /-- every `range` over a (syntactically recognisable) map in caddyconfig/httpcaddyfile/*.go and modules/**/caddyfile.go:
     (file:function, ranged expression, `noappend` | `appendkey` (the body appends the range key itself to a slice) |
-    `appendother` (it appends something else), the first sort call on that slice later in the enclosing block, or `NOSORT`) -/
+    `appendother` (it appends something else), the first sort call on that slice after the loop — in its own block or an enclosing one —, or `NOSORT`) -/
 def caddyfileMapRanges : List (String × String × String × String) := [
   ("caddyconfig/httpcaddyfile/addresses.go:mapAddressToProtocolToServerBlocks", "addrToProtocolToKeyWithParsedKeys", "appendkey", "sort.Strings"),
   ("caddyconfig/httpcaddyfile/addresses.go:mapAddressToProtocolToServerBlocks", "protocolToKeyWithParsedKeys", "appendkey", "sort.Strings"),
@@ -21,8 +21,8 @@ def caddyfileMapRanges : List (String × String × String × String) := [
   ("caddyconfig/httpcaddyfile/serveroptions.go:applyServerOptions", "servers", "noappend", ""),
   ("caddyconfig/httpcaddyfile/serveroptions.go:applyServerOptions", "servers", "noappend", ""),
   ("caddyconfig/httpcaddyfile/tlsapp.go:buildTLSApp", "loadersByName", "noappend", ""),
-  ("caddyconfig/httpcaddyfile/tlsapp.go:buildTLSApp", "httpsHostsSharedWithHostlessKey", "appendkey", "NOSORT"),
-  ("caddyconfig/httpcaddyfile/tlsapp.go:buildTLSApp", "httpsHostsSharedWithHostlessKey", "appendkey", "NOSORT"),
+  ("caddyconfig/httpcaddyfile/tlsapp.go:buildTLSApp", "httpsHostsSharedWithHostlessKey", "appendkey", "slices.Sort"),
+  ("caddyconfig/httpcaddyfile/tlsapp.go:buildTLSApp", "httpsHostsSharedWithHostlessKey", "appendkey", "slices.Sort"),
   ("caddyconfig/httpcaddyfile/tlsapp.go:buildTLSApp", "forcedAutomatedNames", "appendkey", "slices.Sort"),
   ("modules/caddyhttp/reverseproxy/forwardauth/caddyfile.go:parseCaddyfile", "headersToCopy", "appendkey", "sort.Strings")]
 
